@@ -190,7 +190,35 @@ def index_assignment(ctx, repo: Repo, pid: str, store):
                         "assignment: indices collide or leave gaps", where, norm_stmt(upd[0]) if upd else "self.current_max_ci += len(new_nodes)",
                         witness=f"{len(upd)} update(s): {[norm_stmt(x) for x in upd]}")
         else:
-            ctx.inconclusive("OWN", f"{pid}.index.max", "update of the running maximum not recognised", where, norm_stmt(upd[0]))
+            # recognised-wrong form: the maximum is taken from a CALL COUNTER - an attribute that some method bumps by one on every call
+            # without testing that the node is new.  `G.add_node` on an existing key adds nothing (shared edge mid-points / face centres
+            # of the cube and hypercube are "created" 2-4 times), so the counter runs ahead of the number of nodes and leaves gaps.
+            counter = None
+            a0 = upd[0]
+            if isinstance(a0, ast.Assign) and isinstance(a0.value, ast.Attribute) and isinstance(a0.value.value, ast.Name) and a0.value.value.id == "self":
+                cname = a0.value.attr
+                pm_ = repo.module(PO)
+                for ci_ in pm_.classes.values():
+                    for fm_ in ci_.methods.values():
+                        for n_ in ast.walk(fm_.node):
+                            if isinstance(n_, ast.AugAssign) and _is_self_attr(n_.target, cname) and isinstance(n_.op, ast.Add) and \
+                                    isinstance(n_.value, ast.Constant) and n_.value.value == 1:
+                                guarded = False
+                                q_ = getattr(n_, "_parent", None)
+                                while q_ is not None and q_ is not fm_.node:
+                                    if isinstance(q_, ast.If) and ("not in" in src(q_.test) or "has_node" in src(q_.test)):
+                                        guarded = True
+                                    q_ = getattr(q_, "_parent", None)
+                                if not guarded:
+                                    counter = (fm_, n_)
+            if counter is not None:
+                ctx.violate("OWN", f"{pid}.index.max", "the running maximum index is taken from a counter of CALLS of the node-adding routine, not "
+                            "from the number of nodes: a mid-point shared by several divided edges is added more than once (add_node on an "
+                            "existing key adds nothing), the counter runs ahead and permanent indices are no longer 0..n-1 (cube and "
+                            "hypercube, from the second subdivision)", where, norm_stmt(upd[0]),
+                            witness=f"{counter[0].qualname}: {norm_stmt(counter[1])} on every call")
+            else:
+                ctx.inconclusive("OWN", f"{pid}.index.max", "update of the running maximum not recognised", where, norm_stmt(upd[0]))
     lev = [a for a in ast.walk(view) if isinstance(a, ast.AugAssign) and _is_self_attr(a.target, "current_level")]
     ok_lev = len(lev) == 1 and isinstance(lev[0].op, ast.Add) and isinstance(lev[0].value, ast.Constant) and lev[0].value.value == 1
     lev_assign = [a for a in ast.walk(view) if isinstance(a, ast.Assign) and any(_is_self_attr(t, "current_level") for t in a.targets)]
